@@ -1,3 +1,31 @@
-From Flodym Require Import Base.ND.
-Theorem placeholder : True. Proof. exact I. Qed.
-Print Assumptions placeholder.
+(* C05 — assignment into a declared array keeps its dims and sums the source by label.
+   Statements only.  PARTIAL: proved are the frame property of numpy indexed assignment (nothing
+   outside the addressed positions changes), preservation of dimensions and size, and the exact-shape
+   rule for whole-array ndarray assignment; that a FlodymArray source is first summed by label is
+   C07_marginal_by_label (setitem calls sum_values_to); the label-level description of WHICH
+   positions a key addresses is carried by the exhaustive correspondence of C06. *)
+From Coq Require Import List Arith.
+Import ListNotations.
+From Flodym Require Import Base.ND Base.Env Np.Einsum Np.Index Model.Dims Model.Array Model.SubArray Proofs.IndexProofs.
+
+Theorem C05_assignment_keeps_dims_and_size :
+  forall (R : Type) (rO rI : R) (radd rmul : R -> R -> R) (a a' : farr R) k r,
+  length (avals a) = size (dshape (adims a)) ->
+  setitem R rO rI radd rmul a k r = Ok a' -> adims a' = adims a /\ length (avals a') = length (avals a).
+Proof. exact setitem_keeps_dims. Qed.
+Print Assumptions C05_assignment_keeps_dims_and_size.
+
+Theorem C05_entries_outside_the_addressed_positions_unchanged :
+  forall (R : Type) (rO : R) (a : nd R) sels rhs r, setindex R rO a sels rhs = Ok r ->
+  shp r = shp a /\ length (dat r) = length (dat a)
+  /\ forall p, mk_plan_of sels (shp a) = Some p -> forall j d,
+       (forall idx, In idx (all_idx (p_osh p)) -> ravel (shp a) (src_of sels p idx) <> j) ->
+       nth j (dat r) d = nth j (dat a) d.
+Proof. exact setindex_frame. Qed.
+Print Assumptions C05_entries_outside_the_addressed_positions_unchanged.
+
+Theorem C05_whole_array_ndarray_needs_exact_shape :
+  forall (R : Type) (rO rI : R) (radd rmul : R -> R -> R) (a : farr R) v,
+  shp v <> dshape (adims a) -> setitem R rO rI radd rmul a KEllipsis (RNd R v) = Err.
+Proof. exact ellipsis_ndarray_exact_shape. Qed.
+Print Assumptions C05_whole_array_ndarray_needs_exact_shape.
